@@ -8,4 +8,11 @@ NodesRm == << N(5, R, "a", "dir", <<>>), N(6, 5, "b", "dir", <<>>), N(7, 6, "c",
 RA == [nodes |-> NodesRm, dir |-> R, name |-> "a", swap |-> <<R, "swap">>]
 RB == [nodes |-> NodesRm, dir |-> 5, name |-> "b", swap |-> <<R, "swap2">>]
 RL == [nodes |-> NodesRm, dir |-> 5, name |-> "l_out", swap |-> <<R, "swap">>]
+\* the caller may not remove entries of e (12): the file e/keep stays, and so does e
+RD == [nodes |-> NodesRm, dir |-> 12, name |-> "keep", swap |-> <<R, "swap">>, denied |-> {12}]
+RE == [nodes |-> NodesRm, dir |-> R, name |-> "e", swap |-> <<R, "swap">>, denied |-> {12}]
+\* the caller may empty a but not remove it from the root; b/f2 is pinned (sticky directory, foreign owner)
+RF == [nodes |-> NodesRm, dir |-> R, name |-> "a", swap |-> <<R, "swap">>, denied |-> {R}]
+RG == [nodes |-> NodesRm, dir |-> 5, name |-> "b", swap |-> <<R, "swap2">>, pinned |-> {9}]
+RH == [nodes |-> NodesRm, dir |-> 5, name |-> "l_out", swap |-> <<R, "swap">>, denied |-> {5}]
 ====
